@@ -159,6 +159,12 @@ def replay_layout(cases):
                         with core.quiet():
                             if salt == 1 and track.size() >= 2:
                                 track.addObs(track.getObs(0))          # a ring closed with the SAME observation object
+                            if (ci + track.size()) % 3 == 0 and track.size() >= 1:
+                                # history: the object was exported before and its fixes moved since (same size); an export
+                                # describes the object as it stands now
+                                track.toWKT()
+                                for k in range(track.size()):
+                                    track.getObs(k).position.setX(track.getObs(k).position.getX() + 64.0)
                             back = TrackReader.parseWkt(track.toWKT())
                         if back.size() != track.size() or any(back.getObs(k).position.getX() != track.getObs(k).position.getX() or
                                                               back.getObs(k).position.getY() != track.getObs(k).position.getY() for k in range(track.size())):
@@ -274,6 +280,16 @@ def replay_network(cases):
                     if (len(nw["edges"]) + nw["h"]) % 2 == 0:        # the file exists already
                         with open(path, "w") as f:
                             f.write("old,old,old,0,\"LINESTRING(0 0,1 1)\"\n" * 5)
+                    if (len(nw["edges"]) + nw["h"] + ci) % 3 == 0:
+                        # history: the network was written before, its edge geometries edited since (interior vertices moved)
+                        NetworkWriter.writeToCsv(net, path, SEP[nw["sep"]], nw["h"])
+                        for j, e in enumerate(nw["edges"], start=1):
+                            if e["g"] == 3:
+                                g_ = net.getEdge("e%d" % j).geom
+                                g_.getObs(1).position.setX(g_.getObs(1).position.getX() + 1000.0)
+                                g_.getObs(1).position.setY(g_.getObs(1).position.getY() - 0.5)
+                                pts = expect[j - 1][4]
+                                pts[1] = (pts[1][0] + 1000.0, pts[1][1] - 0.5)
                     NetworkWriter.writeToCsv(net, path, SEP[nw["sep"]], nw["h"])
                     fmt = NetworkFormat({"pos_edge_id": 0, "pos_source": 1, "pos_target": 2, "pos_direction": 3, "pos_wkt": 4,
                                          "separator": SEP[nw["sep"]], "header": nw["h"], "srid": "ENU"})
